@@ -24,3 +24,7 @@ CONTRACTS = [ContainerValidate, SeriesSchemaValidate, ArrayValidate, IndexValida
 from contracts.C02_coerce_helper import CoerceDtypeHelper  # noqa: E402  (failures leave no trace: the schema's components after a coercion error, incl. the MultiIndex exit)
 
 CONTRACTS += [CoerceDtypeHelper]
+
+from contracts.C18_guards import CONTRACTS as _API_VALIDATE  # noqa: E402  (the public pandas validate entry points: only documented exceptions - a column named like a dask attribute, a non-dataframe argument)
+
+CONTRACTS += list(_API_VALIDATE)
